@@ -96,3 +96,30 @@ def gen_reactions(rng, objs, mapping_of, kinds, p=0.35, raise_p=0.15, max_k=2, l
                         ops.append(last[1](oid))
                     lines.append(f'react {oid} {meth} {k} : ' + ' ; '.join(ops))
     return lines
+
+
+def gen_churn(rng):
+    """Short-lived handlers followed by fresh ones: each object is created (at its first use), registered,
+    let go by the program - sometimes before any dispatch - and the next one, created afterwards, may get
+    the address of the dead one."""
+    lines, objs, mapping_of = gen_universe(rng, max_classes=2, max_objs=1, mixins=False)
+    cls = next(iter(objs.values()))
+    lines = [ln for ln in lines if not ln.startswith('obj ')]
+    n = rng.randint(3, 7)
+    for o in range(n):
+        lines.append(f'obj {o} class={cls} hash={rng.randint(0, 3)}')
+    evs = sorted(mapping_of[cls]) or EVS[:1]
+    for o in range(n):
+        lines.append(f'op add {o}')
+        if rng.random() < 0.4:
+            lines.append(f'op dispatch {rng.choice(evs)} {rng.choice(ARGS)}')
+        if rng.random() < 0.8:
+            lines.append(f'op drop {o}')
+        elif rng.random() < 0.5:
+            lines.append(f'op remove {o}')
+        if rng.random() < 0.3:
+            lines.append(f'op dispatch {rng.choice(evs)} {rng.choice(ARGS)}')
+        if o + 1 < n:
+            lines.append(f'op ishandler {o + 1}')
+    lines.append(f'op dispatch {rng.choice(evs)} {rng.choice(ARGS)}')
+    return lines
